@@ -124,7 +124,11 @@ type c16Hist struct {
 // setup instantiates the symbolic history: fresh ports, unique identifiers, real solver stacks.
 func (e *c16Env) setup(in c16In, r *rand.Rand) (*c16Hist, error) {
 	e.seq++
-	h := &c16Hist{in: in, provider: &doubles.DNSProviderDouble{}}
+	h := &c16Hist{in: in, provider: &doubles.DNSProviderDouble{}, preMem: map[string]bool{}}
+	// every activeChallenges entry that appears during the history is reported, under whatever key
+	for _, m := range certmagic.VerifActiveChallenges() {
+		h.preMem[m.Key] = true
+	}
 	e.backend.HonourCtx = in.Honour
 	for _, k := range e.backend.Keys() {
 		if strings.Contains(k, "challenge_tokens") {
